@@ -2023,6 +2023,11 @@ class Executor:
                         return VList([self.binop(ast.Sub(), x.items[i + 1], x.items[i]) for i in range(len(x.items) - 1)], 'ndarray')
                     return Tm('call:numpy.diff', x, *a)
                 return PyFn(diff, 'numpy.diff')
+            if name in ('multiply', 'add', 'subtract', 'divide', 'true_divide', 'power', 'negative'):
+                opn = {'multiply': ast.Mult(), 'add': ast.Add(), 'subtract': ast.Sub(), 'divide': ast.Div(), 'true_divide': ast.Div(), 'power': ast.Pow()}.get(name)
+                if name == 'negative':
+                    return PyFn(lambda a: self.binop(ast.Mult(), -1, a), 'numpy.negative')
+                return PyFn(lambda a, b, _o=opn: self.binop(_o, a if not isinstance(a, (list, tuple)) else self.np_array(a), b if not isinstance(b, (list, tuple)) else self.np_array(b)), 'numpy.' + name)
             if name == 'indices':
                 def indices(shape):
                     if isinstance(shape, Tm):
